@@ -1039,3 +1039,40 @@ Proof.
   - destruct ((k =? EK_Aborted) && raborted r1); [apply CLOSE|apply ONE].
 Qed.
 End Loop4.
+
+Lemma client_creq_ok : forall cs done sofar, client_segs done sofar cs -> Forall (fun s : N * N * creq => creq_ok (snd s)) cs.
+Proof.
+  induction cs as [|[[ge gm] c] t IH]; intros done sofar H; [constructor|]. cbn [client_segs] in H.
+  destruct H as (_ & _ & Hc & H). constructor; [exact Hc|apply (IH _ _ H)].
+Qed.
+
+Lemma fits_Forall2 B : forall (cs : list (N * N * creq)) pairss, length pairss = length cs ->
+  (forall i c ps, nth_error (map snd cs) i = Some c -> nth_error pairss i = Some ps -> creq_fits B c ps) ->
+  Forall2 (fun (s : N * N * creq) ps => creq_fits B (snd s) ps) cs pairss.
+Proof.
+  induction cs as [|s t IH]; intros [|ps pt] Hl H; cbn [length] in Hl; try discriminate Hl; constructor.
+  - apply (H 0%nat); reflexivity.
+  - apply IH; [lia|]. intros i c ps' H1 H2. apply (H (S i)); assumption.
+Qed.
+
+Theorem requests_in_order_proof : requests_in_order_stmt.
+Proof.
+  intros norm maxc scripts B cs pairss w0 HB Hs Hsegs Hcl Hlog Hnf Hlen Hfits Hsz tr.
+  pose proof (client_creq_ok cs 0 0 Hcl) as Hcs.
+  pose proof (fits_Forall2 B cs pairss Hlen Hfits) as Hfit.
+  assert (Hbt : between B cs (new_parser B) w0).
+  { exists [], []. split; [split; [constructor|split; constructor]|]. split; [exact Hsegs|]. split; [reflexivity|].
+    split; [reflexivity|]. cbn [new_parser held]. split; [rewrite len_nil; lia|].
+    split; [apply world_ok_remaining; unfold world_ok; rewrite Hsegs; apply (client_world cs 0 0 Hcl)|].
+    rewrite <- Hsegs. cbn [enc_rcds flat_map]. rewrite len_nil. split; [lia|]. unfold SIZE_LIMIT. lia. }
+  destruct (run_loop_tr_prefix norm maxc B HB scripts Hs (nb w0 + 4) cs pairss (new_parser B) 0%nat w0 [] Hcs Hfit Hbt) as (m & Em).
+  exists m. exact Em.
+Qed.
+
+Theorem run_loop_tr_erase : run_loop_tr_erase_stmt.
+Proof. exact run_loop_tr_erase_proof. Qed.
+Print Assumptions run_loop_tr_erase.
+
+Theorem requests_in_order : requests_in_order_stmt.
+Proof. exact requests_in_order_proof. Qed.
+Print Assumptions requests_in_order.
